@@ -99,7 +99,7 @@ func init() {
 	core.Register(&core.Prop{
 		ID:    "C01",
 		Level: "exploration",
-		Rule: "inputs: (1) every string of 1 and 2 (quick) / 1..3 (thorough) tokens over a 103-token alphabet, and every infix block { … } with a body of 2 (a fifth of them 3; thorough all 3) tokens over a 36-token infix alphabet with 0-2 line/block comments after the brace, and 30 constructs nested 200 / 2000 (thorough 20000) levels deep, balanced, left open and over-closed (every bracket, quote, sigil and operator character, one literal of each numeric notation, string/char/raw-string openers, comment openers, every special-form name), with and without blanks between tokens; (2) every special form of the compiler and every name bound after StandardSetup (except the ones that end, block or leave the process by design) with 0..4 arguments over 33 argument kinds (including dotted pairs and improper argument lists); (3) byte- and token-level mutations (delete, duplicate, swap, truncate, splice) of the tests/*.zy corpus; (4) generated programs in chaos mode (ill-typed calls, wrong arities, out-of-range indices, tokens replaced by brackets/sigils); (5) self-referential arrays/hashes printed, compared, encoded and converted; (6) sequences of hostile inputs against one long-lived interpreter; (7) lines fed to the real REPL (cmd/zygo -no-liner) and texts given to cmd/zygo -c. " +
+		Rule: "inputs: (1) every string of 1 and 2 (quick) / 1..3 (thorough) tokens over a 103-token alphabet, and every infix block { … } with a body of 2 (a fifth of them 3; thorough all 3) tokens over a 36-token infix alphabet with 0-2 line/block comments after the brace, and 30 constructs nested 200 / 2000 (thorough 6000) levels deep, balanced, left open and over-closed (every bracket, quote, sigil and operator character, one literal of each numeric notation, string/char/raw-string openers, comment openers, every special-form name), with and without blanks between tokens; (2) every special form of the compiler and every name bound after StandardSetup (except the ones that end, block or leave the process by design) with 0..4 arguments over 33 argument kinds (including dotted pairs and improper argument lists); (3) byte- and token-level mutations (delete, duplicate, swap, truncate, splice) of the tests/*.zy corpus; (4) generated programs in chaos mode (ill-typed calls, wrong arities, out-of-range indices, tokens replaced by brackets/sigils); (5) self-referential arrays/hashes printed, compared, encoded and converted; (6) sequences of hostile inputs against one long-lived interpreter; (7) lines fed to the real REPL (cmd/zygo -no-liner) and texts given to cmd/zygo -c. " +
 			"Entry points: EvalString, LoadString+Run, Parser.ParseTokens whole and in two pieces, EvalExpressions on the parsed forms, macro definition+expansion. Monitor: a recover() boundary around every call (anything reaching it escaped the library), child-process death attributed through the journal (fatal errors, exit), (nil,nil) results, results whose printing fails, and the VM step budget; a watchdog hit outside the VM loop that reproduces alone is a hang. non-trivial = every distinct input",
 		Assumptions: []string{
 			"names that end, block or leave the process by design (exit, stop, sys, system, sleep, channel operations, file writers, timeit, go) are not called; resource exhaustion by honestly expensive programs is classified inconclusive by the step budget",
@@ -278,11 +278,11 @@ func c01Run(c *core.Ctx, i int) *core.Result {
 		}
 		res.Input = fmt.Sprintf("infix blocks starting with %q", a)
 	case "deep":
-		// one construct nested 200 / 2000 (thorough: 20000) levels deep: balanced, left open, over-closed
+		// one construct nested 200 / 2000 (thorough: 6000) levels deep: balanced, left open, over-closed
 		d := c01Deep[k]
 		depths := []int{200, 2000}
 		if c.Thor {
-			depths = append(depths, 20000)
+			depths = append(depths, 6000) // compiling a nest is quadratic in its depth for several forms (cond, let …): 20000 takes minutes of honest work
 		}
 		if strings.Contains(d[0], "a: ") {
 			// printing a nest of hashes is honestly quadratic in its depth (20 s at 2000)
